@@ -37,6 +37,22 @@ GEN = "visit.endpoint.generators"
 
 def _emitted_lines(fn: Function) -> List[Tuple[str, ast.AST]]:
     out = []
+    local_defs: Dict[str, List[ast.AST]] = {}
+    for st in own_nodes(fn.node):
+        if isinstance(st, ast.Assign) and len(st.targets) == 1 and isinstance(st.targets[0], ast.Name):
+            local_defs.setdefault(st.targets[0].id, []).append(st.value)
+
+    def results(e: ast.AST, depth: int = 0) -> List[str]:
+        """string literals the expression can evaluate to: results of conditional expressions, and locals bound to such expressions"""
+        got: List[str] = []
+        for x in ast.walk(e):
+            if isinstance(x, ast.Constant) and isinstance(x.value, str) and not _in_test(x, e):
+                got.append(x.value)
+            elif isinstance(x, ast.Name) and x.id in local_defs and depth < 2 and not _in_test(x, e):
+                for v in local_defs[x.id]:
+                    if isinstance(v, (ast.Constant, ast.IfExp)):
+                        got += results(v, depth + 1)
+        return got
     for c in calls_in(fn.node):
         if isinstance(c.func, ast.Attribute) and c.func.attr == "write_line" and c.args:
             t = template_of(c.args[0], fn.node)
@@ -44,15 +60,13 @@ def _emitted_lines(fn: Function) -> List[Tuple[str, ast.AST]]:
                 out.append((t.text, c))
         if isinstance(c.func, ast.Attribute) and c.func.attr in ("append", "extend", "insert") and c.args:
             # every literal that can become an element: `append("a=b")`, `append("a=b" if c else "a=None")`, `extend(["json=None", "data=None"])`
-            for x in ast.walk(c.args[-1]):
-                if isinstance(x, ast.Constant) and isinstance(x.value, str) and not _in_test(x, c.args[-1]):
-                    out.append((x.value, c))
+            for v in results(c.args[-1]):
+                out.append((v, c))
     for st in own_nodes(fn.node):
         if isinstance(st, (ast.Assign, ast.AnnAssign)) and isinstance(st.value, (ast.List, ast.Tuple)):
             for el in st.value.elts:
-                for x in ast.walk(el):
-                    if isinstance(x, ast.Constant) and isinstance(x.value, str) and not _in_test(x, el):
-                        out.append((x.value, st))
+                for v in results(el.value if isinstance(el, ast.Starred) else el):
+                    out.append((v, st))
     return out
 
 
@@ -261,7 +275,13 @@ def _rule_4_8(grc: Function, gua: Function, rg, rep) -> None:
                 ct_params = {n for x in ast.walk(grc.node) if isinstance(x, ast.Compare) and any(
                     isinstance(y, ast.Constant) and isinstance(y.value, str) and "/" in y.value for y in ast.walk(x)) for n in names_in(x) if GL.is_param(n)}
                 truthy_ct = isinstance(ci, ast.Name) and ci.id in ct_params
-                if not (has_body or media or truthy_ct):
+                # the result of a content-type lookup held in a local (`arg = TABLE.get(content_type)` ... `if arg is not None`): every
+                # definition of the local is a literal or None
+                probe = ci.left if isinstance(ci, ast.Compare) and len(ci.ops) == 1 and isinstance(ci.ops[0], (ast.Is, ast.IsNot)) and \
+                    isinstance(ci.comparators[0], ast.Constant) and ci.comparators[0].value is None else ci
+                lookup_result = isinstance(probe, ast.Name) and bool(GL.defs.get(probe.id)) and all(
+                    k_ == "assign" and isinstance(v_, ast.Constant) and (v_.value is None or isinstance(v_.value, str)) for k_, v_, _ in GL.defs.get(probe.id, []))
+                if not (has_body or media or truthy_ct or lookup_result):
                     other.append(("" if pj else "not ") + norm(cj))
         sub = f"{rg.relpath}:generate_request_call `{lit}`"
         if other:
